@@ -36,6 +36,7 @@
 //!   `rej <who> <t> <subid>`                  ReportData disowned (InvalidSubscription)
 //!   `tab <t> <entries> <reporting>`          the device's table changed; entry = id/peer/min/max/ra/rt/fc
 //!                                            (ra: ms or `M` = not primed, rt: ms or `m` = none)
+//!   `res <id:sel,...>`                       (only `up`) what the resumed subscriptions select, from the persisted records
 //!   `dev <values>` / `subv <who> <alive id:sel,...> <view>`   (only `obs`; sel `u` = adopted from a report)
 use core::future::Future;
 use core::num::NonZeroU8;
@@ -65,7 +66,9 @@ use rs_matter::im::client::{ImClient, SubscribeOutcome, TxOutcome};
 use rs_matter::im::encoding::ReportDataResp;
 use rs_matter::im::subscriptions::{VerifItem, VerifSub};
 use rs_matter::im::{AttrPath, AttrResp, GenericPath, IMStatusCode, InteractionModel, InteractionModelState};
-use rs_matter::persist::{DummyKvBlobStore, KvBlobStore};
+use rs_matter::im::SubscribeReq;
+use rs_matter::persist::{DummyKvBlobStore, KvBlobStore, PERSISTENT_SUBSCRIPTIONS_START};
+use rs_matter::tlv::TLVElement;
 use rs_matter::respond::Responder;
 use rs_matter::tlv::TLVWrite;
 use rs_matter::transport::exchange::{Exchange, MatterBuffers};
@@ -766,6 +769,36 @@ fn evict_idle_unsecured(m: &Matter) {
     });
 }
 
+/// What the persisted records select, in slot order (`load_persist` re-adds them in that order, so the
+/// record of slot k becomes the resumed subscription k+1): `w` = a wildcard attribute path, `l` = a list.
+fn persisted_selections(kv: &MemKv) -> Vec<&'static str> {
+    let mut v = Vec::new();
+    let store = kv.0.borrow();
+    for slot in 0..MAX_SUBS as u16 {
+        let Some(data) = store.get(&(PERSISTENT_SUBSCRIPTIONS_START + slot)) else {
+            break;
+        };
+        let sel = (|| -> Result<&'static str, Error> {
+            let req_bytes = TLVElement::new(data).structure()?.find_ctx(4)?.str()?;
+            let req = SubscribeReq::new(TLVElement::new(req_bytes));
+            let mut wild = false;
+            if let Some(paths) = req.attr_requests()? {
+                for (k, p) in paths.iter().enumerate() {
+                    if k >= 32 {
+                        break;
+                    }
+                    if p?.attr.is_none() {
+                        wild = true;
+                    }
+                }
+            }
+            Ok(if wild { "w" } else { "l" })
+        })();
+        v.push(sel.unwrap_or("u"));
+    }
+    v
+}
+
 fn install<C: Crypto>(crypto: &C, keys: &Keys, m: &Matter, node: u64, kn: u64) -> Result<NonZeroU8, String> {
     let p = GenP { fab: FABRIC, node, cats: vec![], rca: 3, ica: None, nb: 1, na: 0, kr: 0, ki: 1, kn };
     let (root, _icac, noc) = gen_records(&p);
@@ -981,7 +1014,13 @@ pub fn run_case(out: &mut Out, kind: &str, ops: &[String]) -> CaseFacts {
             // the op that brought us here is `up`: its output is the resumed table
             *world.last_tab.borrow_mut() = String::new();
             sample();
-            let o = format!("{}{}", if started { "" } else { "startup-failed ; " }, log.drain());
+            let res: Vec<String> = persisted_selections(&kvstore).iter().enumerate().map(|(k, s)| format!("{}:{}", k + 1, s)).collect();
+            let o = format!(
+                "{}{} ; res {}",
+                if started { "" } else { "startup-failed ; " },
+                log.drain(),
+                if res.is_empty() { "-".to_string() } else { res.join(",") }
+            );
             out.op(&ops[pos - 1], &o);
         }
         first_boot = false;
